@@ -116,6 +116,7 @@ func main() {
 		panic(err)
 	}
 	fn(c)
+	cleanupScratch()
 	if err := c.W.Close(); err != nil {
 		panic(err)
 	}
